@@ -119,7 +119,7 @@ ValidDerived(G) ==
     LET gd == GraphDesc(G) IN
     /\ gd.st = "ok"
     /\ UniqueFullnames(gd.d)            \* one definition per fullname
-    /\ ~AnyUncond(gd.d)                 \* no record that unconditionally contains itself
+    /\ ~UncondCycle(G)                  \* no record that unconditionally contains itself
     /\ WellFormedUnions(G)
 
 (***************************************************************************)
